@@ -32,6 +32,7 @@ OUTSIDE = ["pandas frames (parquet is C code writing through the real file syste
 FUNCTIONS_ENCODED = ["dds.codec.CodecRegistry.*", "dds.codec.codec_registry", "dds.codecs.builtins.*", "dds.store.LocalFileStore.store_blob", "dds.store.LocalFileStore.fetch_blob", "dds.store.LocalFileStore.has_blob"]
 BOUNDS = {"quick": {"str": "<= 1 arbitrary code point with registrations, <= 2 without", "bytes": "<= 2 arbitrary bytes", "registrations": "<= 3 out of 6 kinds, or a fresh process", "pickle": ["None", "(1, 'a')", "{'k': [1, 2]}"]}}
 BOUNDS["thorough"] = dict(BOUNDS["quick"], str="<= 2 arbitrary code points with registrations, <= 3 without", bytes="<= 3 arbitrary bytes")
+BUDGET_S = {"thorough": 900}  # wall budget of the thorough tier: queries not started by then are reported as not run
 LAST_DETAIL = [""]
 KEY = "ab12"
 
